@@ -66,6 +66,7 @@ struct Driver {
             S.effects.push_back(e);
             return true;
         }
+        case 'T': if (inst.count(a[0])) snapshot(a[0]); return true;
         case 'U': use(a[0]); snprintf(line, sizeof line, "USE %c", a[0]); tr().line(line); return true;
         case 'N': fresh(a[0]); return true;
         default: break;
@@ -113,6 +114,7 @@ struct Driver {
                 inst[a[1]].reset(new Root(src));
                 reg(a[1]);
                 tr().line("RET -");
+                snapshot(a[0]);
                 snapshot(a[1]);
                 break;
             }
@@ -121,6 +123,7 @@ struct Driver {
                 const Root& src = at(a[0]);
                 at(a[1]) = src;
                 tr().line("RET -");
+                snapshot(a[0]);
                 snapshot(a[1]);
                 break;
             }
